@@ -113,7 +113,7 @@ func (rn *runner) runDec(k *kind, b []byte, record bool, measure bool, origin st
 	}
 	if record {
 		c.Case("dec/"+k.name+"/"+rp.Hex, err == nil && pan == "", rp)
-		rn.coq = append(rn.coq, fmt.Sprintf("CDec K_%s (h \"%x\") %s", k.name, b, obs))
+		rn.coq = append(rn.coq, fmt.Sprintf("CDec K_%s %s %s", k.name, cB(b), obs))
 	}
 	if measure && pan == "" {
 		bound := k.allocK*uint64(len(b)) + k.allocC
@@ -157,7 +157,7 @@ func (rn *runner) runEnc(k *kind, m any, valid bool, record bool, rp replay) []b
 	b, err, pan := encode(k, m)
 	obs := "None"
 	if pan == "" && err == nil {
-		obs = fmt.Sprintf("(Some (h \"%x\"))", b)
+		obs = cSome(cB(b))
 		c.Count("enc:" + k.name + ":ok")
 	} else {
 		c.Count("enc:" + k.name + ":refused")
@@ -414,7 +414,7 @@ func main() {
 func (rn *runner) writeCases() {
 	var sb strings.Builder
 	sb.WriteString("From Coq Require Import List NArith String.\nFrom MM Require Import Lib.Bytes Model.Frames.\nImport ListNotations.\n")
-	sb.WriteString("Local Open Scope N_scope.\nLocal Open Scope string_scope.\nNotation h := bytes_of_hex.\n")
+	sb.WriteString("Local Open Scope N_scope.\nLocal Open Scope string_scope.\nNotation h := bytes_of_hex.\nInductive seg := S_ (s : string) | R_ (n : N) (s : string).\nDefinition hx (l : list seg) : bytes := List.concat (List.map (fun g => match g with S_ s => bytes_of_hex s | R_ n s => N.iter n (fun a => List.app (bytes_of_hex s) a) nil end) l).\nFixpoint chunk16 (fuel : nat) (b : bytes) : list bytes := match fuel with O => nil | S f => match b with nil => nil | _ => List.firstn 16 b :: chunk16 f (List.skipn 16 b) end end.\nDefinition ids (b : bytes) : list bytes := chunk16 (List.length b) b.\n")
 	const chunk = 50
 	var names []string
 	for i := 0; i < len(rn.coq); i += chunk {
